@@ -22,7 +22,7 @@ Theorem C09_judge_sound : forall rec m n M rc1 v viol rc2 was Sg viol2 rc3 v' rc
     (was = 1 <-> Sm = M) /\
     v' = 1 /\
     S2 = Some (m, n, Sm) /\ was2 = 1 /\
-    (tu_bf m n M = true -> v = 1) /\
+    ((m * n <= 42)%nat -> tu_bf m n M = true -> v = 1) /\
     ((m * n <= 20)%nat -> regular_bf m n (support M) = true ->
        tu_bf m n Sm = true /\ (v = 1 -> tu_bf m n M = true)) /\
     (v = 0 -> forall rs cs, viol = Some (rs, cs) -> check_camion_violator m n M rs cs = true).
